@@ -121,6 +121,11 @@ func pick(w *sim.World, n int, quickVals ...int) int {
 func scenario(w *sim.World) {
 	last.valid = false
 	wd := env.NewWorld(w)
+	if w.Choose(sim.KCfg, 2) == 1 {
+		// injected refusals: an environment resource aborts an attempt at a drawn operation (no step in the spec)
+		wd.FaultBudget = 1 + w.Choose(sim.KCfg, 6)
+		w.Probe("env_refusals_enabled")
+	}
 	switch w.Choose(sim.KCfg, 9) {
 	case 8:
 		n, rounds := 1+pick(w, 3, 1), 1+pick(w, 2, 0, 1)
